@@ -311,20 +311,43 @@ theorem C18_tensor_fits_relu (t : Tie) (c : ReluCfg) (h : c.slopeLog = none) (hb
     simp only [ReluCfg.step, hnsb, fixedLsb, b2i, Bool.false_eq_true, if_false]
     congr 1; ring
 
-/-- COUNTEREXAMPLE (finding C18-tanh-intbits): `QuantizedTanh.convert_qkeras_quantizer` never sets
-    `int_bits`, so `quantized_tanh(4)` converts to `(4 bits, −1 int bits, signed)` — values in
-    `[−1/2, 7/16]` — while the quantizer emits `k/8`, `−8 ≤ k ≤ 7`; e.g. `7/8` for a saturated
-    input (surrogate value 1). -/
-theorem C18_tensor_fits_tanh_counterexample :
+/-- `quantized_tanh(bits)` (any symmetry, any tie rule, hard or real tanh: every surrogate value
+    `p`): every output `k / 2^(bits-1)` is a value of the converted type `(bits, 0, signed)`.
+    (Was the counterexample of finding C18-tanh-intbits until the repair
+    "QuantizedTanh.convert_qkeras_quantizer sets int_bits".) -/
+theorem C18_tensor_fits_tanh (t : Tie) (bits : ℤ) (sym : Bool) (hb : 1 ≤ bits) (p : ℚ) :
+    ∃ r, ofQuantizer { cls := "quantized_tanh", bits := bits } = some r ∧
+      Val r (qtanhP t bits sym p) := by
+  refine ⟨{ tQuantizedBits with name := .quantized_tanh, bits := bits, intBits := 0,
+                                signed := true }, rfl, ?_⟩
+  obtain ⟨k, h1, h2, hk⟩ := C01.C01_tanh_on_lattice t bits sym p
+  show ValFixed bits 0 true (qtanhP t bits sym p)
+  refine ⟨k, ?_, ?_, ?_⟩
+  · rw [fixedLo_signed]; split at h1 <;> omega
+  · rw [fixedHi_signed]; exact h2
+  · rw [hk, tp_cast (by omega : 0 ≤ bits - 1)]
+    have hp : pow2 (0 + b2i true - bits) * pow2 (bits - 1) = 1 := by
+      rw [← pow2_add, show 0 + b2i true - bits + (bits - 1) = 0 by simp [b2i], pow2_zero]
+    have hpos := pow2_pos (bits - 1)
+    rw [div_eq_iff hpos.ne']
+    show (k : ℚ) = (k : ℚ) * pow2 (0 + b2i true - bits) * pow2 (bits - 1)
+    rw [mul_assoc, hp, mul_one]
+
+/-- REGRESSION WITNESS (former finding C18-tanh-intbits): `quantized_tanh(4)` now converts to
+    `(4 bits, 0 int bits, signed)`, which holds the saturated output `7/8` (the old record
+    `(4, −1, signed)` stopped at `7/16`). -/
+theorem C18_tensor_fits_tanh_fixed_witness :
     qtanhP .even 4 false 1 = 7 / 8 ∧
     ∃ r, ofQuantizer { cls := "quantized_tanh", bits := 4 } = some r ∧
-      r.bits = 4 ∧ r.intBits = -1 ∧ r.signed = true ∧ ¬ Val r (7 / 8) := by
-  refine ⟨by decide +kernel, _, rfl, rfl, rfl, rfl, ?_⟩
-  show ¬ ValFixed 4 (-1) true (7 / 8)
-  rw [valFixed_iff (by decide)]
-  rintro ⟨_, _, h⟩
-  simp [pow2] at h
-  norm_num at h
+      r.bits = 4 ∧ r.intBits = 0 ∧ r.signed = true ∧ Val r (7 / 8) ∧
+      ¬ ValFixed 4 (-1) true (7 / 8) := by
+  refine ⟨by decide +kernel, _, rfl, rfl, rfl, rfl, ?_, ?_⟩
+  · show ValFixed 4 0 true (7 / 8)
+    exact ⟨7, by decide, by decide, by simp [fixedLsb, b2i, pow2]; norm_num⟩
+  · rw [valFixed_iff (by decide)]
+    rintro ⟨_, _, h⟩
+    simp [pow2] at h
+    norm_num at h
 
 /-- `quantized_po2(bits)` / `quantized_relu_po2(bits)` without `max_value`: every value `±2^e`
     with `e` in the quantizer's real exponent range is a value of the converted type. -/
@@ -369,12 +392,14 @@ theorem C18_tensor_fits_po2_counterexample :
 
 /-! ## activation propagation: pass-through layers re-make the record on the edge -/
 
-/-- the records that survive `QuantizerFactory.make_quantizer` unchanged -/
-theorem C18_remake_id (q : QRec) (h : q.name ≠ .stochastic_binary ∧ q.name ≠ .bernoulli ∧
-    q.name ≠ .quantized_tanh ∧ q.name ≠ .quantized_ulaw) : remake q = q := by
-  unfold remake
-  obtain ⟨h1, h2, h3, h4⟩ := h
-  split <;> first | rfl | contradiction
+/-- every record survives `QuantizerFactory.make_quantizer` unchanged (each qtools class is
+    mapped to itself and cloned; the four exceptions of finding C18-edge-remake are repaired) -/
+theorem C18_remake_id (q : QRec) : remake q = q := rfl
+
+/-- a pass-through layer (Flatten / MaxPooling / Reshape / UpSampling) reports its input type as
+    its output type, for every record -/
+theorem C18_passthrough_type (inp : QRec) :
+    stepNode inp .pass = some { input := inp, types := none, output := inp } := rfl
 
 /-- along a chain the input type reported for a layer is the type reported for the tensor that
     feeds it (the output type of the previous node) -/
@@ -399,132 +424,157 @@ theorem C18_chain_input (src : QRec) (n : Node) (rest : List Node) (r : NodeRepo
         obtain ⟨a, _, rfl⟩ := hs
         rfl
 
-/-- COUNTEREXAMPLE (finding C18-edge-remake): `quantizer_lookup` maps the qtools classes
-    QuantizedTanh / QuantizedUlaw / Bernoulli / StochasticBinary to StochasticTernary, so a
-    `Flatten` (or MaxPooling / Reshape) after `QActivation(quantized_tanh(4))` reports a ternary
-    output type — and so does the input of the layer behind it — while the tensor still carries
-    tanh values such as `7/8`. -/
-theorem C18_edge_remake_counterexample :
-    let tanh4 : QRec := { tQuantizedBits with name := .quantized_tanh, bits := 4, signed := true }
+/-- REGRESSION WITNESS (former finding C18-edge-remake; `quantizer_lookup` mapped the qtools
+    classes QuantizedTanh / QuantizedUlaw / Bernoulli / StochasticBinary to StochasticTernary):
+    a `Flatten` after `QActivation(quantized_tanh(4))` now reports the tanh type for its output —
+    and so does the input of the layer behind it — and the tanh value `7/8` fits it. -/
+theorem C18_edge_remake_fixed_witness :
+    let tanh4 : QRec := { tQuantizedBits with name := .quantized_tanh, bits := 4, intBits := 0,
+                                              signed := true }
     let src : QRec := { tQuantizedBits with bits := 8, intBits := 0, signed := true }
     ∃ r1 r2, chainTypes src [.qact tanh4, .pass] = some [r1, r2] ∧
-      r2.input = tanh4 ∧ r2.output = { tTernary with name := .stochastic_ternary } ∧
-      ¬ Val r2.output (7 / 8) := by
-  refine ⟨_, _, rfl, rfl, rfl, ?_⟩
-  simp [Val, remake, tTernary, tQuantizedBits]
-  norm_num
+      r2.input = tanh4 ∧ r2.output = tanh4 ∧ Val r2.output (7 / 8) ∧
+      ¬ Val { tTernary with name := .stochastic_ternary } (7 / 8) := by
+  refine ⟨_, _, rfl, rfl, rfl, ?_, ?_⟩
+  · show ValFixed 4 0 true (7 / 8)
+    exact ⟨7, by decide, by decide, by simp [fixedLsb, b2i, pow2]; norm_num⟩
+  · simp [Val, tTernary]
+    norm_num
 
 /-! ## C18_estimator_bound: `analyze_accumulator` -/
 
 /-- per output channel: for inputs inside `[xmin, xmax]` the magnitude of the output is at most
-    the channel's `max(n1, n0)` — induction over the weight list — PROVIDED the bias is zero or
-    `xmax ≥ 1`: the estimator multiplies the bias by the input range
-    (see `C18_estimator_bias_counterexample`). -/
+    the channel's `max(n1, n0)` — induction over the weight list; any bias, any range (the
+    hypothesis `b = 0 ∨ xmax ≥ 1` of the recorded state is gone with the repair
+    "analyze_accumulator adds the bias after scaling by the input range"). -/
 theorem C18_estimator_bound (ws xs : List ℚ) (b xmin xmax : ℚ)
-    (hx : ∀ x ∈ xs, xmin ≤ x ∧ x ≤ xmax) (hb : b = 0 ∨ 1 ≤ xmax) :
+    (hx : ∀ x ∈ xs, xmin ≤ x ∧ x ≤ xmax) :
     |dot ws xs + b| ≤ chanBound ws b xmin xmax := by
   have hP := posPart_nonneg xmax
   have hM := negPart_nonpos xmin
   have hd := dot_bounds ws xs hP hM
     (fun x h => ⟨le_trans (negPart_le xmin) (hx x h).1, le_trans (hx x h).2 (le_posPart xmax)⟩)
-  have hbias : negPart b * posPart xmax + posPart b * negPart xmin ≤ b ∧
-      b ≤ posPart b * posPart xmax + negPart b * negPart xmin := by
-    rcases hb with rfl | hb
-    · simp [posPart, negPart]
-    · have hPx : posPart xmax = xmax := by unfold posPart; rw [if_pos (by linarith)]
-      rw [hPx]
-      unfold posPart negPart at hM ⊢
-      rcases lt_trichotomy b 0 with h | h | h
-      · have h' : ¬ (0 < b) := by linarith
-        simp only [h, h', if_true, if_false]
-        constructor <;> nlinarith
-      · subst h; simp
-      · have h' : ¬ (b < 0) := by linarith
-        simp only [h, h', if_true, if_false]
-        constructor <;> nlinarith
   have h1 : dot ws xs + b ≤ estN1 ws b xmin xmax := by
-    unfold estN1 estNpp estNnn; nlinarith [hd.2, hbias.2]
+    unfold estN1 estNpp estNnn; linarith [hd.2]
   have h0 : -(dot ws xs + b) ≤ estN0 ws b xmin xmax := by
-    unfold estN0 estNpp estNnn; nlinarith [hd.1, hbias.1]
+    unfold estN0 estNpp estNnn; linarith [hd.1]
   show |dot ws xs + b| ≤ if estN0 ws b xmin xmax < estN1 ws b xmin xmax
     then estN1 ws b xmin xmax else estN0 ws b xmin xmax
   rw [abs_le]
   split <;> constructor <;> linarith
 
-/-- `max(n1, n0) ≤ 2^estimate`, hence `|output| ≤ 2^estimate`, for every channel the loop VISITS
-    (index `i < k.shape[1]`): the returned size bounds log2 of the output magnitude there. -/
-theorem C18_estimator_log2 (shape1 : ℕ) (slices : List (List ℚ)) (bias : List ℚ) (xmin xmax : ℚ)
-    (e : ℤ) (h : analyzeAccumulator shape1 slices bias xmin xmax = .ok e)
-    (i : ℕ) (hi : i < shape1) (ws : List ℚ) (b : ℚ) (hws : slices[i]? = some ws)
-    (hbi : bias[i]? = some b) (xs : List ℚ) (hx : ∀ x ∈ xs, xmin ≤ x ∧ x ≤ xmax)
-    (hb : b = 0 ∨ 1 ≤ xmax) :
-    |dot ws xs + b| ≤ pow2 e := by
+/-- every output channel is visited: slice `i` and bias element `i` form an entry of the loop -/
+theorem channel_mem (slices : List (List ℚ)) (bias : List ℚ) (h : slices.length ≤ bias.length)
+    (i : ℕ) (hi : i < slices.length) :
+    ∃ b, bias[i]? = some b ∧ (slices[i], b) ∈ channels slices bias := by
+  have hb : i < bias.length := lt_of_lt_of_le hi h
+  refine ⟨bias[i], List.getElem?_eq_getElem hb, ?_⟩
+  unfold channels
+  apply List.mem_of_getElem? (i := i)
+  rw [List.getElem?_zip_eq_some]
+  exact ⟨List.getElem?_eq_getElem hi, List.getElem?_eq_getElem hb⟩
+
+/-- ALL CHANNELS (replaces the counterexample of finding C18-estimator-loop-bound): whenever
+    `analyze_accumulator` returns a size `e` for a layer, EVERY output channel `i` of the kernel
+    (dense, conv1d, conv2d: slice `i` of the last axis; depthwise: slice `c·dm + m`) has a bias
+    element and satisfies `|Σ wⱼxⱼ + b| ≤ 2^e` for every input patch inside `[xmin, xmax]` — any
+    number of channels, any kernel size, any bias, any range. -/
+theorem C18_estimator_all_channels (slices : List (List ℚ)) (bias : List ℚ) (xmin xmax : ℚ)
+    (e : ℤ) (h : analyzeAccumulator slices bias xmin xmax = .ok e)
+    (i : ℕ) (hi : i < slices.length) (xs : List ℚ) (hx : ∀ x ∈ xs, xmin ≤ x ∧ x ≤ xmax) :
+    ∃ b, bias[i]? = some b ∧ |dot slices[i] xs + b| ≤ pow2 e := by
   unfold analyzeAccumulator at h
   split at h
-  · simp only at h
+  · rename_i hlen
+    obtain ⟨b, hb, hmem⟩ := channel_mem slices bias hlen i hi
+    refine ⟨b, hb, ?_⟩
+    simp only at h
     split at h
     · cases h
     · rename_i hm
       push Not at hm
       injection h with h
       subst h
-      have hmem : (ws, b) ∈ visited shape1 slices bias := by
-        unfold visited
-        apply List.mem_of_getElem? (i := i)
-        rw [List.getElem?_take, if_pos hi, List.getElem?_zip_eq_some]
-        exact ⟨hws, hbi⟩
-      have hle : chanBound ws b xmin xmax ≤ listMax ((visited shape1 slices bias).map
+      have hle : chanBound slices[i] b xmin xmax ≤ listMax ((channels slices bias).map
           fun (p : List ℚ × ℚ) => chanBound p.1 p.2 xmin xmax) :=
-        le_listMax (List.mem_map.2 ⟨(ws, b), hmem, rfl⟩)
-      exact le_trans (C18_estimator_bound ws xs b xmin xmax hx hb)
+        le_listMax (List.mem_map.2 ⟨(slices[i], b), hmem, rfl⟩)
+      exact le_trans (C18_estimator_bound slices[i] xs b xmin xmax hx)
         (le_trans hle (le_pow2_ceilLog2Rat hm))
   · cases h
 
-/-- dense layers (rank-2 kernel `(cin, cout)`: `k.shape[1]` IS the number of output channels):
-    the estimate bounds every output channel -/
-theorem C18_estimator_dense_all_channels (slices : List (List ℚ)) (bias : List ℚ) (xmin xmax : ℚ)
-    (e : ℤ) (h : analyzeAccumulator slices.length slices bias xmin xmax = .ok e)
-    (i : ℕ) (hi : i < slices.length) (b : ℚ) (hbi : bias[i]? = some b) (xs : List ℚ)
-    (hx : ∀ x ∈ xs, xmin ≤ x ∧ x ≤ xmax) (hb : b = 0 ∨ 1 ≤ xmax) :
-    |dot slices[i] xs + b| ≤ pow2 e :=
-  C18_estimator_log2 slices.length slices bias xmin xmax e h i hi slices[i] b
-    (List.getElem?_eq_getElem hi) hbi xs hx hb
+/-- the loop never indexes past the bias vector of a built layer (one bias element per output
+    channel), for any kernel shape — the IndexError of finding C18-estimator-loop-bound-raises
+    is gone -/
+theorem C18_estimator_no_index_error (slices : List (List ℚ)) (bias : List ℚ) (xmin xmax : ℚ)
+    (h : slices.length ≤ bias.length) :
+    analyzeAccumulator slices bias xmin xmax ≠ .indexError := by
+  unfold analyzeAccumulator
+  rw [if_pos h]
+  simp only
+  split <;> simp
 
-/-- COUNTEREXAMPLE (finding C18-estimator-loop-bound): the loop runs over `range(k.shape[1])`,
-    which for a rank-4 convolution kernel `(kh, kw, cin, cout)` is the kernel WIDTH.  A `2×3`
-    kernel with 5 filters visits only filters 0–2:
-    * only filter 4 non-zero (all weights 1/2), inputs in [−1, 1]: every visited bound is 0 and
-      the function raises OverflowError (`int(ceil(log2 0))`);
-    * filter 0 additionally 1/8: the function returns 0 (outputs "< 2^0") although filter 4
-      outputs `6 · 1/2 · 1 = 3` on the all-ones patch. -/
-theorem C18_estimator_loop_bound_counterexample :
+/-- the remaining exception: OverflowError (`int(ceil(log2 0))`) is raised only when EVERY output
+    channel is identically zero on the whole input range — there is no magnitude to size -/
+theorem C18_estimator_overflow_only_zero (slices : List (List ℚ)) (bias : List ℚ)
+    (xmin xmax : ℚ) (h : analyzeAccumulator slices bias xmin xmax = .overflowError)
+    (i : ℕ) (hi : i < slices.length) (xs : List ℚ) (hx : ∀ x ∈ xs, xmin ≤ x ∧ x ≤ xmax) :
+    ∃ b, bias[i]? = some b ∧ dot slices[i] xs + b = 0 := by
+  unfold analyzeAccumulator at h
+  split at h
+  · rename_i hlen
+    obtain ⟨b, hb, hmem⟩ := channel_mem slices bias hlen i hi
+    refine ⟨b, hb, ?_⟩
+    simp only at h
+    split at h
+    · rename_i hm
+      have hle : chanBound slices[i] b xmin xmax ≤ listMax ((channels slices bias).map
+          fun (p : List ℚ × ℚ) => chanBound p.1 p.2 xmin xmax) :=
+        le_listMax (List.mem_map.2 ⟨(slices[i], b), hmem, rfl⟩)
+      have := C18_estimator_bound slices[i] xs b xmin xmax hx
+      exact abs_nonpos_iff.1 (le_trans this (le_trans hle hm))
+    · cases h
+  · cases h
+
+/-- REGRESSION WITNESS (former findings C18-estimator-loop-bound / -raises; the loop ran over
+    `range(k.shape[1])`, the kernel WIDTH of a rank-4 kernel): a `2×3` kernel with 5 filters, all
+    five slices visited now.
+    * only filter 4 non-zero (all weights 1/2), inputs in [−1, 1]: was OverflowError, is
+      `ceil(log2 3) = 2`;
+    * filter 0 additionally 1/8: was 0 (outputs "≤ 2^0") although filter 4 outputs
+      `6 · 1/2 · 1 = 3` on the all-ones patch; is 2, and `3 ≤ 2^2`. -/
+theorem C18_estimator_loop_bound_fixed_witness :
     let z : List ℚ := [0, 0, 0, 0, 0, 0]
     let f4 : List ℚ := [1/2, 1/2, 1/2, 1/2, 1/2, 1/2]
     let f0 : List ℚ := [1/8, 1/8, 1/8, 1/8, 1/8, 1/8]
     let ones : List ℚ := [1, 1, 1, 1, 1, 1]
-    analyzeAccumulator 3 [z, z, z, z, f4] [0, 0, 0, 0, 0] (-1) 1 = .overflowError ∧
-    analyzeAccumulator 3 [f0, z, z, z, f4] [0, 0, 0, 0, 0] (-1) 1 = .ok 0 ∧
+    analyzeAccumulator [z, z, z, z, f4] [0, 0, 0, 0, 0] (-1) 1 = .ok 2 ∧
+    analyzeAccumulator [f0, z, z, z, f4] [0, 0, 0, 0, 0] (-1) 1 = .ok 2 ∧
     (∀ x ∈ ones, (-1 : ℚ) ≤ x ∧ x ≤ 1) ∧ ¬ (|dot f4 ones + 0| ≤ pow2 0) ∧
-    -- with the loop bound repaired (`k.shape[-1]` = 5) the same kernel gives ceil(log2 3) = 2
-    analyzeAccumulator 5 [f0, z, z, z, f4] [0, 0, 0, 0, 0] (-1) 1 = .ok 2 := by
-  refine ⟨by decide +kernel, by decide +kernel, ?_, ?_, by decide +kernel⟩
+    |dot f4 ones + 0| ≤ pow2 2 := by
+  refine ⟨by decide +kernel, by decide +kernel, ?_, ?_, ?_⟩
   · intro x hx; simp at hx; subst hx; norm_num
   · simp [dot, pow2]; norm_num
+  · simp [dot, pow2]; norm_num
 
-/-- COUNTEREXAMPLE: for a depthwise kernel `(kh, kw, cin, 1)` the loop index runs over `kw` but
-    indexes the LAST axis (size 1): IndexError as soon as `kw > 1`. -/
-theorem C18_estimator_depthwise_counterexample :
-    analyzeAccumulator 2 [[1/2, 1/2, 1/2, 1/2]] [0, 0, 0] (-1) 1 = .indexError := by
-  decide +kernel
+/-- REGRESSION WITNESS (former depthwise counterexample; the loop indexed the depth-multiplier
+    axis with the kernel-width index: IndexError as soon as `kw > 1`): a depthwise kernel
+    `(2, 2, 1, 1)` is one output channel with the four weights; a kernel `(1, 2, 2, 2)`
+    (2 input channels, depth multiplier 2) is four output channels `c·2 + m`, each with its own
+    bias element. -/
+theorem C18_estimator_depthwise_fixed_witness :
+    analyzeAccumulator [[1/2, 1/2, 1/2, 1/2]] [0] (-1) 1 = .ok 1 ∧
+    analyzeAccumulator [[1/2, 1/2], [1/4, 0], [1, 1], [0, -1/2]] [0, 0, 1/2, 3] (-1) 1 = .ok 2 := by
+  refine ⟨by decide +kernel, by decide +kernel⟩
 
-/-- COUNTEREXAMPLE (finding C18-estimator-bias-scaled): the bias is multiplied by the input
-    range.  One weight 1/2, bias 1/2, inputs in [−1/2, 1/2]: the estimate is −1 (outputs
-    "≤ 1/2") but the input 1/2 gives `1/2·1/2 + 1/2 = 3/4`. -/
-theorem C18_estimator_bias_counterexample :
-    analyzeAccumulator 1 [[1/2]] [1/2] (-1/2) (1/2) = .ok (-1) ∧
-    ¬ (|dot [1/2] [1/2] + 1/2| ≤ pow2 (-1)) := by
-  refine ⟨by decide +kernel, ?_⟩
-  simp [dot, pow2]; norm_num
+/-- REGRESSION WITNESS (former finding C18-estimator-bias-scaled; the bias was multiplied by the
+    input range): one weight 1/2, bias 1/2, inputs in [−1/2, 1/2]: the estimate was −1 (outputs
+    "≤ 1/2") although the input 1/2 gives `1/2·1/2 + 1/2 = 3/4`; it is `ceil(log2 3/4) = 0`. -/
+theorem C18_estimator_bias_fixed_witness :
+    analyzeAccumulator [[1/2]] [1/2] (-1/2) (1/2) = .ok 0 ∧
+    ¬ (|dot [1/2] [1/2] + 1/2| ≤ pow2 (-1)) ∧ |dot [1/2] [1/2] + 1/2| ≤ pow2 0 := by
+  refine ⟨by decide +kernel, ?_, ?_⟩
+  · simp [dot, pow2]; norm_num
+  · simp [dot, pow2]; norm_num
 
 /-! ## non-vacuity -/
 
@@ -540,7 +590,8 @@ example : ∃ lt, layerTypes .conv2d { tQuantizedBits with bits := 4, intBits :=
     { tQuantizedBits with bits := 4, intBits := 0, signed := true }
     (some { tQuantizedBits with bits := 4, intBits := 0, signed := true }) [2, 3, 2, 5] = some lt ∧
     lt.accumulator.bits = 13 ∧ lt.accumulator.intBits = 5 := ⟨_, rfl, by decide, by decide⟩
-example : analyzeAccumulator 2 [[1/2, 1/2, -1/2], [-1/4, 1/4, 1/8]] [0, 0] (-1) (1/2) = .ok 1 := by
+example : analyzeAccumulator [[1/2, 1/2, -1/2], [-1/4, 1/4, 1/8]] [0, 0] (-1) (1/2) = .ok 1 := by
   decide +kernel
+example : analyzeAccumulator [[0, 0], [0, 0]] [0, 0] (-1) 1 = .overflowError := by decide +kernel
 
 end QKV.Props.C18
